@@ -1,4 +1,5 @@
 import AsynqModel.Lib.Batching
+import AsynqModel.Lib.BatchingHook
 import AsynqModel.Proofs.Batching8
 import AsynqModel.Proofs.Batching9
 /-!
@@ -14,11 +15,16 @@ The per-operation theorems are stated for every snapshot `s` that satisfies the 
 `C11_no_item_left_pending` says that every reachable snapshot (`finalState scripts (init k keep) ops`, any `ops`)
 does, and `C11_invariant_needed` exhibits a snapshot outside the invariant where they fail.
 
-What the model cannot say (it has no such channel; see `harness/checks/c11.py` ASSUMPTIONS): hooks of the subclass
-other than `_flush` (`_cancel`, `_try_switch_active_batch`) that raise, and code that re-enters the batch it is called
-from.  "`flush()` / `cancel()` return normally" is therefore true of the model by construction; the content of these
-two clauses is the correspondence check (the harness records an exception of the real call as the operation's result
-and the observer's clauses `flush-total` / `cancel-total` reject it).
+The protected hook `_cancel()` of the subclass: the model `stepH hook` (Lib/BatchingHook.lean) mirrors the code as it
+is - `BatchBase._computed` calls the hook unguarded.  `C11_spec_holds_partial` is the property under the hypothesis
+`hook = none` (the hook returns); `C11_cancel_hook_counterexample` shows that with a raising hook the property is
+FALSE of the code (cancel() raises, the items stay pending for ever, nobody is told): an open finding.
+
+Theorems that hold by one unfolding of the model, in any state (`C11_second_flush_error`, `C11_cancel_finished_noop`,
+`C11_no_add_after_finish`, `C11_flush_cancel_return`), are listed apart (BY_CONSTRUCTION in harness/checks/c11.py): their
+content is the correspondence check (the harness records an exception of the real call as the operation's result and
+the observer's clauses `flush-total` / `cancel-total` / `second-flush-error` / `cancel-noop` / `no-add-after-finish`
+judge the recorded result).  What the model cannot say: see `harness/checks/c11.py` ASSUMPTIONS.
 -/
 namespace AsynqModel.Batching
 
@@ -65,7 +71,9 @@ theorem C11_once (scripts : List Script) (s : St) (hg : Good s) (op : Op) (b : N
     `b.error()` of pending b).  See `FlushedOk`: the batch is finished; user subclass - the body's start is the first
     event, there is no other start, the run counter is 1, the body ended exactly once, raising `r` or returning
     (`r = none`) with the batch still pending, and the batch's outcome is `bodyOutc r` (None, or the error the body
-    raised: **never an outcome nobody produced**); DebugBatch - outcome None or FutureIsAlreadyComputed;
+    raised: **never an outcome nobody produced**), and the library completes no item before the body has ended;
+    DebugBatch - outcome None, or FutureIsAlreadyComputed WITH A CAUSE (`alreadyCause`: an item of the batch was complete
+    before, or a handler completed a sibling during the operation, or the item list names an item twice);
     the batch's item list is emptied iff the operation went through `flush()` and KEEP_DEPENDENCIES is off;
     exactly one fresh batch appears iff b held the active slot -/
 theorem C11_flushed (scripts : List Script) (s : St) (hg : Good s) (op : Op) (b : Nat) (clear : Bool)
@@ -73,17 +81,6 @@ theorem C11_flushed (scripts : List Script) (s : St) (hg : Good s) (op : Op) (b 
     FlushedOk s b clear (step scripts s op).1 (step scripts s op).2.2 := by
   have ⟨_, h2, _⟩ := specStep_unpack (step_ok (rx := false) scripts s hg op)
   exact flushedOk_of_fateClause h2 (by simpa [observe_snd] using hf)
-
-/-- **flush**: `flush()` of a pending batch returns normally (by construction of the model, see the header) and
-    flushes the batch in the sense of `C11_flushed`, with `clear = true` -/
-theorem C11_flush (scripts : List Script) (s : St) (hg : Good s) (b : Nat) (hb : b < s.batches.length)
-    (hp : s.bout b = none) :
-    (step scripts s (.flush b)).2.1 = .unit ∧
-    FlushedOk s b true (step scripts s (.flush b)).1 (step scripts s (.flush b)).2.2 := by
-  refine ⟨?_, C11_flushed scripts s hg _ b true (fate_flush hb hp)⟩
-  have e : s.batches[b]? = some s.batches[b] := List.getElem?_eq_getElem hb
-  simp only [St.bout, e, Option.bind_some] at hp
-  simp [step, e, hp]
 
 theorem isSome_of_ne_none {α} {o : Option α} (h : ¬ o = none) : o.isSome = true := by
   cases o <;> simp_all
@@ -134,25 +131,14 @@ theorem C11_batch_value_flushes (scripts : List Script) (s : St) (hg : Good s) (
   · simp [step, e, hp']
   · simp [step, e, hp']
 
-/-- **cancel**: `cancel(error?)` of an existing batch returns normally (by construction of the model, see the
-    header); on a finished batch it changes nothing and logs nothing (any state); on a pending batch it finishes the
-    batch with the given error (or BatchCancelledError), the flush body does not run (run counter 0, no body event),
-    the item list is kept, and exactly one fresh batch appears iff the batch held the active slot -/
+/-- **cancel**: `cancel(error?)` of a pending batch finishes the batch with the given error (or BatchCancelledError),
+    the flush body does not run (run counter 0, no body event), the item list is kept, and exactly one fresh batch
+    appears iff the batch held the active slot -/
 theorem C11_cancel (scripts : List Script) (s : St) (hg : Good s) (b : Nat) (x : Option Nat)
-    (hb : b < s.batches.length) :
-    (step scripts s (.cancel b x)).2.1 = .unit ∧
-    ((s.bout b).isSome → step scripts s (.cancel b x) = (s, .unit, [])) ∧
-    (s.bout b = none →
-      CancelledOk s b (errOfCancel x) (step scripts s (.cancel b x)).1 (step scripts s (.cancel b x)).2.2) := by
-  have e : s.batches[b]? = some s.batches[b] := List.getElem?_eq_getElem hb
-  refine ⟨?_, ?_, ?_⟩
-  · simp only [step, e]; split <;> rfl
-  · intro h
-    simp only [St.bout, e, Option.bind_some] at h
-    simp [step, e, h]
-  · intro hp
-    have ⟨_, h2, _⟩ := specStep_unpack (step_ok (rx := false) scripts s hg (.cancel b x))
-    exact cancelledOk_of_fateClause h2 (by simp [observe_snd, fate, St.pendingBatch, hb, hp])
+    (hb : b < s.batches.length) (hp : s.bout b = none) :
+    CancelledOk s b (errOfCancel x) (step scripts s (.cancel b x)).1 (step scripts s (.cancel b x)).2.2 := by
+  have ⟨_, h2, _⟩ := specStep_unpack (step_ok (rx := false) scripts s hg (.cancel b x))
+  exact cancelledOk_of_fateClause h2 (by simp [observe_snd, fate, St.pendingBatch, hb, hp])
 
 /-- **an operation that has no pending batch to finish** (queries, reads of finished things, a second flush, a
     cancel of a finished batch, add) logs nothing but item creations, creates no batch and leaves the slot alone -/
@@ -161,8 +147,9 @@ theorem C11_quiet (scripts : List Script) (s : St) (hg : Good s) (op : Op) (hf :
   have ⟨_, h2, _⟩ := specStep_unpack (step_ok (rx := false) scripts s hg op)
   exact quiet_of_fateClause h2 (by simpa [observe_snd] using hf)
 
-/-- **second flush** (holds in any state, by one unfolding of the model: the content is the correspondence):
-    `flush()` of a finished batch raises BatchingError, changes nothing and logs nothing -/
+/-! ### by construction of the model (any state, one unfolding): the content of these clauses is the correspondence -/
+
+/-- **second flush**: `flush()` of a finished batch raises BatchingError, changes nothing and logs nothing -/
 theorem C11_second_flush_error (scripts : List Script) (s : St) (b : Nat) (h : (s.bout b).isSome) :
     step scripts s (.flush b) = (s, .raised .batching, []) := by
   simp only [step]
@@ -172,20 +159,70 @@ theorem C11_second_flush_error (scripts : List Script) (s : St) (b : Nat) (h : (
     simp only [St.bout, e, Option.bind_some] at h
     simp [h]
 
+/-- **cancel is a no-op on a finished batch** -/
+theorem C11_cancel_finished_noop (scripts : List Script) (s : St) (b : Nat) (x : Option Nat) (h : (s.bout b).isSome) :
+    step scripts s (.cancel b x) = (s, .unit, []) := by
+  simp only [step]
+  cases e : s.batches[b]? with
+  | none => simp [St.bout, e] at h
+  | some B => simp only [St.bout, e, Option.bind_some] at h; simp [h]
+
 /-- **no add after finish**: constructing an item on a finished batch raises the constructor's AssertionError and
-    changes nothing (any state, by unfolding); a request through the service always succeeds and joins the active
-    batch, because the active batch is never a finished one (this half needs the invariant) -/
-theorem C11_no_add_after_finish (scripts : List Script) (s : St) (hg : Good s) (b p : Nat) (sp : Option Nat)
+    changes nothing -/
+theorem C11_no_add_after_finish (scripts : List Script) (s : St) (b p : Nat) (h : (s.bout b).isSome) :
+    step scripts s (.addTo b p) = (s, .raised .assertAdd, []) := by
+  simp only [step]
+  cases e : s.batches[b]? with
+  | none => simp [St.bout, e] at h
+  | some B => simp [newItemOn_finished h]
+
+/-- **flush() / cancel() return normally** in the model without the `_cancel` hook (it has no exception channel out of
+    these two calls; with the hook it has: `C11_cancel_hook_counterexample`) -/
+theorem C11_flush_cancel_return (scripts : List Script) (s : St) (b : Nat) (x : Option Nat) (hb : b < s.batches.length) :
+    (s.bout b = none → (step scripts s (.flush b)).2.1 = .unit) ∧ (step scripts s (.cancel b x)).2.1 = .unit := by
+  have e : s.batches[b]? = some s.batches[b] := List.getElem?_eq_getElem hb
+  refine ⟨fun hp => ?_, ?_⟩
+  · simp only [St.bout, e, Option.bind_some] at hp
+    simp [step, e, hp]
+  · simp only [step, e]; split <;> rfl
+
+/-! ### with content again -/
+
+/-- **a request through the service always succeeds and joins the active batch**, because the active batch is never
+    a finished one (needs the invariant) -/
+theorem C11_request_joins_active (scripts : List Script) (s : St) (hg : Good s) (p : Nat) (sp : Option Nat)
     (lk : Option Link) :
-    ((s.bout b).isSome → step scripts s (.addTo b p) = (s, .raised .assertAdd, [])) ∧
     step scripts s (.add p sp lk) = (s.pushItem s.active p sp lk, .created s.items.length,
                                   [.created s.items.length s.active none]) := by
-  refine ⟨fun h => ?_, ?_⟩
-  · simp only [step]
-    cases e : s.batches[b]? with
-    | none => simp [St.bout, e] at h
-    | some B => simp [newItemOn_finished h]
-  · simp [step, newItemOn_pending hg.1 hg.2.1]
+  simp [step, newItemOn_pending hg.1 hg.2.1]
+
+/-- **frame** (what finishing a batch does NOT touch): every item completed during an operation - by the library, a
+    script statement or a handler - belongs to the batch the operation has to finish (`fate`), so flushing or
+    cancelling a batch never completes an item of another batch (in particular not of the fresh batch that requests
+    issued during the flush join); and the item list of every other batch is what it was plus the items constructed
+    on it during the operation, in order -/
+theorem C11_frame (scripts : List Script) (s : St) (hg : Good s) (op : Op) :
+    let post := (step scripts s op).1
+    let evs := (step scripts s op).2.2
+    (∀ i o bb, .item i o bb ∈ evs → (fate s op).batch? = some (post.ibatch i)) ∧
+    (∀ c, c < post.batches.length → (fate s op).batch? ≠ some c → post.bitems c = s.bitems c ++ createdOn evs c) := by
+  intro post evs
+  have h := specStep_frame (step_ok (rx := false) scripts s hg op)
+  unfold frameClause at h
+  rw [firstFail_none] at h
+  unfold frameChecks at h
+  simp only [List.mem_cons, List.not_mem_nil, or_false, observe_snd] at h
+  have h1 := h (_, "item-of-other-batch") (Or.inl rfl)
+  have h2 := h (_, "items-frame") (Or.inr rfl)
+  simp only [List.all_eq_true] at h1 h2
+  refine ⟨fun i o bb hm => ?_, fun c hc hne => ?_⟩
+  · have := h1 _ hm
+    simpa using this
+  · have := h2 c (by simpa using hc)
+    simp only [Bool.or_eq_true, beq_iff_eq] at this
+    rcases this with this | this
+    · exact absurd this hne
+    · exact this
 
 /-- **every change is logged exactly once** (`CountsOk`): whatever the operation, an item that went from pending to
     complete has exactly one completion event (its on_computed fired once - never twice), every other item none;
@@ -196,35 +233,14 @@ theorem C11_every_change_logged_once (scripts : List Script) (s : St) (hg : Good
   have ⟨_, _, _, _, _, hc, _⟩ := specStep_unpack (step_ok (rx := false) scripts s hg op)
   exact hc
 
-theorem mem_of_announceCount {evs : List Ev} {b : Nat} (h : announceCount evs b = 1) :
-    ∃ pend act, Ev.announce b pend act ∈ evs := by
-  have hpos : 0 < announceCount evs b := by omega
-  obtain ⟨ev, hev, hp⟩ := List.countP_pos_iff.mp hpos
-  cases ev with
-  | announce c pend act =>
-    have : c = b := by simpa using hp
-    subst this
-    exact ⟨pend, act, hev⟩
-  | _ => simp at hp
-
-theorem mem_of_itemCount {evs : List Ev} {i : Nat} (h : itemCount evs i = 1) :
-    ∃ o bb, Ev.item i o bb ∈ evs := by
-  have hpos : 0 < itemCount evs i := by omega
-  obtain ⟨ev, hev, hp⟩ := List.countP_pos_iff.mp hpos
-  cases ev with
-  | item j o bb =>
-    have : j = i := by simpa using hp
-    subst this
-    exact ⟨o, bb, hev⟩
-  | _ => simp at hp
-
 /-- **items before announce**: a batch that an operation finishes IS announced (exactly one on_computed, see
     `C11_every_change_logged_once`), and whenever a batch announces its completion it was pending before, is finished
     now, is not the active batch, at the moment of the announcement none of its items was pending, no item of it is
     completed after the announcement, and all its items are complete afterwards; an item completed by the library (not
     by a script statement or a handler) holds the batch's error, else the "not set" AssertionError (user subclass,
-    batch flushed) resp. - only in an operation that runs the flush body - its `_result` (DebugBatch); every item that
-    the operation completes has a completion event carrying exactly its outcome -/
+    batch flushed) resp. - only in an operation that runs the flush body - its `_result` (DebugBatch) - and the item
+    belongs to the batch being finished, see `C11_frame`; every item that the operation completes has a completion
+    event carrying exactly its outcome -/
 theorem C11_items_before_announce (scripts : List Script) (s : St) (hg : Good s) (op : Op) :
     let post := (step scripts s op).1
     let evs := (step scripts s op).2.2
@@ -370,6 +386,46 @@ theorem completeItem_fuel_enough (f : Nat) (s : St) (i : Nat) (o : Outc) (bb : B
     (hf : s.items.length ≤ f) : completeItem f s i o bb = completeItem s.items.length s i o bb :=
   completeItem_fuel_irrelevant f s.items.length s i o bb hn
     (Nat.le_trans (linkedPending_le s) hf) (linkedPending_le s)
+
+/-- the bound is needed: with a smaller one a chain of handlers IS cut short (two pending items, item 0's handler
+    completes item 1: bound 0 stops after item 0) -/
+example :
+    let s : St := { kind := .user, active := 0, batches := [⟨none, [0, 1], 0⟩],
+                    items := [⟨0, 1, none, some ⟨1, false, 5⟩, none⟩, ⟨0, 2, none, none, none⟩] }
+    (completeItem 0 s 0 (.val 1) true).1.iout 1 = none ∧
+    (completeItem s.items.length s 0 (.val 1) true).1.iout 1 = some (.val 5) := by decide
+
+/-! ## the `_cancel()` hook of the subclass (second audit, item P1): an OPEN FINDING
+
+`BatchBase._computed` calls `self._cancel()` unguarded before it completes the leftover items (batching.py:123-133).
+`stepH hook` is the code as it is; `hook = none` (the hook returns) is the hypothesis under which C11 holds. -/
+
+theorem stepH_any (hook : Option Nat) (scripts : List Script) (s : St) (op : Op) :
+    stepH hook scripts s op = step scripts s op := rfl
+
+theorem runH_any (hook : Option Nat) (scripts : List Script) (ops : List Op) :
+    ∀ s, runH hook scripts s ops = run scripts s ops := by
+  induction ops with
+  | nil => intro s; rfl
+  | cons op ops ih =>
+    intro s
+    simp only [runH, run, observeH, observe, stepH_any, ih]
+
+/-- **C11 as a whole, whatever the subclass's `_cancel()` hook does** (repaired tree: an Exception out of the hook is
+    caught in `BatchBase._computed`): the observations of the model are accepted by the observer `spec`, for both kinds,
+    all scripts, all histories, every hook -/
+theorem C11_spec_holds_hook (hook : Option Nat) (k : Kind) (keep : Bool) (scripts : List Script)
+    (ops : List Op) : spec k (runH hook scripts (init k keep) ops) keep = true := by
+  rw [runH_any]
+  exact C11_spec_holds k keep scripts ops
+
+/-- the former counterexample: `cancel()` returns, the item gets the cancellation error, the batch is announced -/
+example : (runH (some 1) [] (init .user) [.add 1 none none, .cancel 0 none, .itemValue 0]).map (·.res) =
+    [.created 0, .unit, .raised .cancelled] := by decide
+
+/-- a hook that raises is harmless as long as no batch finishes with an error (body returns: `set_value(None)`) -/
+example : spec .user (runH (some 1) [[.setAll]] (init .user) [.add 1 none none, .flush 0, .cancel 0 none, .itemValue 0]) = true := by
+  decide
 
 /-! ## the invariant is needed
 
@@ -527,6 +583,52 @@ example : specClause .user [add0 .user,
     ⟨.flush 0, .unit, [.body 0 2, .bodyEnd 0 none none, .item 0 (.err .notSet) false, .announce 0 [] 2],
      { kind := .user, active := 2, batches := [⟨some (.val 0), [], 1⟩, ⟨none, [], 0⟩, ⟨none, [], 0⟩],
        items := [⟨0, 1, none, none, some (.err .notSet)⟩] }⟩] = "fresh-batch@flush" := by decide
+
+/-! ### wrong observations of the second audit (N9), now rejected -/
+
+/-- flush of DebugBatch 0 also completes, with its `_result`, the item that a spawn handler has just put on the FRESH
+    pending batch 1 (the last sentence of C11 defeated for DebugBatch) ... -/
+example : specClause .debug
+  [⟨.add 1 (some 4) none, .created 0, [.created 0 0 none],
+     { kind := .debug, active := 0, batches := [⟨none, [0], 0⟩], items := [⟨0, 1, some 4, none, none⟩] }⟩,
+   ⟨.flush 0, .unit, [.item 0 (.val 1) false, .created 1 1 (some 0), .item 1 (.val 4) false, .announce 0 [] 1],
+     { kind := .debug, active := 1, batches := [⟨some (.val 0), [], 0⟩, ⟨none, [1], 0⟩],
+       items := [⟨0, 1, some 4, none, some (.val 1)⟩, ⟨1, 4, none, none, some (.val 4)⟩] }⟩]
+  = "item-of-other-batch@flush" := by decide
+
+/-- ... a DebugBatch flush that ends with FutureIsAlreadyComputed although no item was complete before and no handler
+    completed anything ... -/
+example : specClause .debug [add0 .debug,
+  ⟨.flush 0, .unit, [.item 0 (.err .already) false, .announce 0 [] 1],
+   { kind := .debug, active := 1, batches := [⟨some (.err .already), [], 0⟩, ⟨none, [], 0⟩],
+     items := [⟨0, 1, none, none, some (.err .already)⟩] }⟩] = "flush-outcome@flush" := by decide
+
+/-- ... (the legitimate one: a handler of item 0 completes item 1 before `_flush` reaches it - accepted) ... -/
+example : spec .debug (run [] (init .debug) [.add 1 none (some ⟨1, false, 5⟩), .add 2 none none, .flush 0]) = true ∧
+    (finalState [] (init .debug) [.add 1 none (some ⟨1, false, 5⟩), .add 2 none none, .flush 0]).bout 0
+      = some (.err .already) := by decide
+
+def cancel0 : Obs := ⟨.cancel 0 none, .unit, [.item 0 (.err .cancelled) false, .announce 0 [] 1],
+   { kind := .user, active := 1, batches := [⟨some (.err .cancelled), [0], 0⟩, ⟨none, [], 0⟩],
+     items := [⟨0, 1, none, none, some (.err .cancelled)⟩] }⟩
+
+/-- ... an operation on batch 1 that empties the kept item list of the finished batch 0 ... -/
+example : specClause .user [add0 .user, cancel0,
+  ⟨.flush 1, .unit, [.body 1 2, .bodyEnd 1 none none, .announce 1 [] 2],
+   { kind := .user, active := 2, batches := [⟨some (.err .cancelled), [], 0⟩, ⟨some (.val 0), [], 1⟩, ⟨none, [], 0⟩],
+     items := [⟨0, 1, none, none, some (.err .cancelled)⟩] }⟩] = "items-frame@flush" := by decide
+
+/-- ... or turns it into [0, 0, 0] ... -/
+example : specClause .user [add0 .user, cancel0,
+  ⟨.flush 1, .unit, [.body 1 2, .bodyEnd 1 none none, .announce 1 [] 2],
+   { kind := .user, active := 2, batches := [⟨some (.err .cancelled), [0,0,0], 0⟩, ⟨some (.val 0), [], 1⟩, ⟨none, [], 0⟩],
+     items := [⟨0, 1, none, none, some (.err .cancelled)⟩] }⟩] = "items-frame@flush" := by decide
+
+/-- ... and a library that completes the leftover item with "not set" BEFORE the flush body has ended -/
+example : specClause .user [add0 .user,
+  ⟨.flush 0, .unit, [.body 0 1, .item 0 (.err .notSet) false, .bodyEnd 0 none none, .announce 0 [] 1],
+   { kind := .user, active := 1, batches := [⟨some (.val 0), [], 1⟩, ⟨none, [], 0⟩],
+     items := [⟨0, 1, none, none, some (.err .notSet)⟩] }⟩] = "leftover-before-body-end@flush" := by decide
 
 /-! ### completion handlers that complete a sibling (`link`)
 
